@@ -182,6 +182,15 @@ class AccessMixin:
 
     # -------------------------------------------------------------------------------------- subscripts
     def ev_Subscript(self, node, fr):
+        top0 = getattr(self, "top_contract", None)
+        sh = top0.options.get("subscript_handlers") if top0 is not None else None
+        if sh:
+            h = sh.get(ast.unparse(node))
+            if h is not None:
+                # assumed contract of `obj[key]` on a repository class with its own __getitem__ (keyed by the expression text)
+                from .api import Ctx
+                self.assumptions.add(f"assumed contract on `{ast.unparse(node)}`" + (f": {h.__doc__.strip().splitlines()[0]}" if h.__doc__ else ""))
+                return h(Ctx(self, fr, ast.unparse(node), node), node)
         base = self.ev(node.value, fr)
         tn = base.ty.name if base.ty else None
         st = self.st
